@@ -33,6 +33,10 @@ CLAIMED = {
             "Static decision of the status-machine clauses of C19 (DESIGN section 3): EndOfSimulation <=> FinalTimeHasBeenReturned with the final-time guard, refusal of further stepping, "
             "each returned status paired with its tabled status write in both sibling implementations, and the internal step limit bounded by min(scheduled, final[, report]) by data flow. "
             "Holds for every request sequence because it holds on every path; 'exactly at that time', monotonic time and event-window exclusion are value comparisons and are not decided."),
+    "C22": ("SWITCH exhaustiveness + per-case call/argument table on TimeStepperRep::stepTo, PAIRIDX family agreement of handler/id parallel arrays per natural loop, REACHDEF on findEventCandidates",
+            "Static decision of the dispatch clauses of C22 (DESIGN section 3): every step status has a case; each handler-invoking case passes the tabled cause and id list on the advanced state and is "
+            "followed on every path by reinitialize(lowestModified, shouldTerminate) taken from that call's results; handler/reporter arrays are only paired with the id/index arrays of their own family and "
+            "under the right cause; a candidate is listed only under a masked sign change of the same event. Window width, bracketing, ordering of crossings and exact handler times are numerical/time logic and not decided."),
 }
 NA = {
  "C01": "numerical identity between O(n) recursions; no clause is visible in the shape of the code",
